@@ -18,7 +18,10 @@ GTC = 'glm/gtc/packing.inl'
 contracts = []
 
 
-FLOAT_BACKENDS = ('kissat', 'cadical', 'sat')   # float obligations: kissat is 10-50x faster than minisat here
+# minisat (incremental, all clauses of a contract in one solver instance) is the fastest back end for most of these
+# obligations; the 16-bit quantisation clauses are the exception (packUnorm1x16: minisat 790 s, cadical 50 s, kissat 16 s)
+FLOAT_BACKENDS = ('sat', 'kissat')
+HARD_BACKENDS = ('kissat', 'sat')
 
 
 def C(fn, real, tier='quick', **kw):
@@ -122,7 +125,13 @@ def norm_format(kind, sfx, bits, widths, file, one):
             ens.append((tag + '_clamps_low', 'spec_isnan32(%s) || spec_unorm_low(%s, %s)' % (x, x, c)))
         ens.append((tag + '_clamps_high', 'spec_isnan32(%s) || %s_high(%s, %s, %du)' % (x, q, x, c, fmax[i])))
         ens.append((tag + '_nearest_code', 'spec_isnan32(%s) || %s_nearest(%s, %s, %du)' % (x, q, x, c, fmax[i])))
-    C('glm_pack' + F, '%s  %s' % (pk, file), tier=thorough, ensures=ens, timeout=600)
+    if slow(widths) and one:
+        # 16-bit fields of a multi-component word: quantisation is proved once on the one-component function (1x16); the
+        # word is tied to it by the relational layout clause below (four 16-bit quantisation proofs in one formula do not finish)
+        pass
+    else:
+        C('glm_pack' + F, '%s  %s' % (pk, file), tier=thorough if max(widths) < 10 else 'thorough', ensures=ens, timeout=600,
+          backends=HARD_BACKENDS if slow(widths) else FLOAT_BACKENDS)
     # ---- (c) relational layout against the one-component function
     if one:
         onefn = 'glm_pack%s%s' % (kind, one)
@@ -323,7 +332,13 @@ for tag, gt, ct, cb, n, signed in TEMPL:
         ens.append(('comp%d_clamps_low' % i, 'spec_isnan32(%s) || %s' % (x, 'spec_snorm_low(%s, %s, %du)' % (x, c, m) if signed else 'spec_unorm_low(%s, %s)' % (x, c))))
         ens.append(('comp%d_clamps_high' % i, 'spec_isnan32(%s) || %s_high(%s, %s, %du)' % (x, q, x, c, m)))
         ens.append(('comp%d_nearest_code' % i, 'spec_isnan32(%s) || %s_nearest(%s, %s, %du)' % (x, q, x, c, m)))
-    C('glm_pack' + F, '%s(vec<%d,float>)  %s' % (pk, n, GTC), tier=th, ensures=ens, timeout=600)
+    if cb >= 16:
+        # as for 2x16/4x16: tied component-wise to the one-component function, whose quantisation is proved directly
+        onefn = 'glm_pack%s1x16' % K
+        C('glm_pack' + F, '%s(vec<%d,float>) against glm::pack%s1x16  %s' % (pk, n, K, GTC), tier=th, timeout=600, uses=[onefn],
+          ensures=[('comp%d_is_pack%s1x16' % (i, K), 'spec_isnan32(%s) || out[%d] == %s(%s)' % (XS[i], i, onefn, XS[i])) for i in range(n)])
+    else:
+        C('glm_pack' + F, '%s(vec<%d,float>)  %s' % (pk, n, GTC), tier=th, ensures=ens, timeout=600)
     C('glm_unpack' + F, '%s(vec<%d,%s>)  %s' % (up, n, gt, GTC), tier=th, timeout=600,
       ensures=[('comp%d_is_code_over_%d' % (i, m), '%s_decodes(out[%d], %s, %du)' % (q, i, code(XS[i]), m)) for i in range(n)])
     C('glm_repack_' + F, '%s(%s(v))  %s' % (pk, up, GTC), tier=th, timeout=600,
